@@ -370,3 +370,32 @@ fn c04_bottom_alignment_keeps_finished_bar() {
     b.tick();
     assert!(term.contents().contains("a:"), "{:?}", term.contents());
 }
+
+/// C09: progress the estimator has not sampled (increments swallowed by the position rate limiter)
+/// must not be attributed to the first sample after reset_eta().
+#[test]
+fn c09_reset_eta_forgets_unsampled_progress() {
+    let pb = ProgressBar::with_draw_target(Some(1_000_000_000), ProgressDrawTarget::hidden());
+    std::thread::sleep(std::time::Duration::from_millis(20));
+    for _ in 0..200 {
+        pb.inc(1000); // far more than 10 updates per millisecond: most are not sampled
+    }
+    pb.reset_eta();
+    std::thread::sleep(std::time::Duration::from_millis(100));
+    pb.inc(1);
+    assert!(pb.per_sec() <= 100.0, "one step in 0.1 s after reset_eta() is reported as {} steps/s", pb.per_sec());
+}
+
+/// C09: a backwards seek that ends above the last position the estimator sampled restarts the estimate.
+#[test]
+fn c09_backwards_seek_above_the_last_sampled_position() {
+    let pb = ProgressBar::with_draw_target(Some(1_000_000_000), ProgressDrawTarget::hidden());
+    std::thread::sleep(std::time::Duration::from_millis(20));
+    for _ in 0..200 {
+        pb.inc(1000);
+    }
+    std::thread::sleep(std::time::Duration::from_millis(50));
+    assert_eq!(pb.position(), 200_000);
+    pb.set_position(150_000);
+    assert_eq!(pb.per_sec(), 0.0, "a backwards seek is reported as progress");
+}
